@@ -75,7 +75,10 @@ var modeNames = [4]string{"fn", "field", "ThenWith(simple)", "ThenWith(field)"}
 
 type sortCase struct {
 	// Wide: the int key K1 takes its four values from the extremes of int (MinInt, -1, 0, MaxInt)
-	Wide  bool      `json:"wide,omitempty"`
+	Wide bool `json:"wide,omitempty"`
+	// Bytes: the string key K2 takes its four values from strings that are not text: "\xff", "\U00010400",
+	// "M\xf6ller", "M\xfcller" (Latin-1 names, binary ids): the natural order of a Go string is that of its bytes
+	Bytes bool      `json:"bytes,omitempty"`
 	Entry string    `json:"entry"`
 	Ptr   bool      `json:"ptr"` // descriptor sorts over []*rec instead of []rec
 	Items []item    `json:"items"`
@@ -113,7 +116,11 @@ func (c sortCase) recs() []rec {
 				k1 = math.MaxInt
 			}
 		}
-		out[i] = rec{K1: fpgo.NewComparableOrdered(k1), K2: fpgo.NewComparableString(it.K2), K3: fpgo.NewComparableOrdered(it.K3), ID: i}
+		k2 := it.K2
+		if c.Bytes {
+			k2 = map[string]string{"": "\xff", "a": "\U00010400", "ab": "M\xf6ller", "b": "M\xfcller"}[k2]
+		}
+		out[i] = rec{K1: fpgo.NewComparableOrdered(k1), K2: fpgo.NewComparableString(k2), K3: fpgo.NewComparableOrdered(it.K3), ID: i}
 	}
 	return out
 }
@@ -600,6 +607,7 @@ func propComparator(t *rapid.T) {
 	c := sortCase{
 		Entry: rapid.SampledFrom(comparatorEntries).Draw(t, "entry"),
 		Wide:  rapid.IntRange(0, 3).Draw(t, "wide") == 0,
+		Bytes: rapid.IntRange(0, 3).Draw(t, "bytes") == 0,
 		Items: genItems(t, 40),
 		Spec:  genSpec(t, 2, false),
 	}
@@ -616,6 +624,7 @@ func propDescriptor(t *rapid.T) {
 	c := sortCase{
 		Entry: rapid.SampledFrom(descriptorEntries).Draw(t, "entry"),
 		Wide:  rapid.IntRange(0, 3).Draw(t, "wide") == 0,
+		Bytes: rapid.IntRange(0, 3).Draw(t, "bytes") == 0,
 		Ptr:   rapid.Bool().Draw(t, "ptr"),
 		Items: genItems(t, 30),
 		Spec:  genSpec(t, 3, true),
